@@ -72,13 +72,25 @@ class ExprMixin:
                     c = self.ev_bool(e, st)
                     cs.append(c)
                     if k < len(node.values) - 1:
-                        st.guard.append(c if isinstance(node.op, ast.And) else z3.Not(c))
+                        g = c if isinstance(node.op, ast.And) else z3.Not(c)
+                        if self.decided_false(g, st):
+                            break   # short circuit: the remaining operands are never evaluated
+                        st.guard.append(g)
             finally:
                 st.guard[:] = saved
             return zand(*cs) if isinstance(node.op, ast.And) else zor(*cs)
         if isinstance(node, ast.UnaryOp) and isinstance(node.op, ast.Not):
             return z3.Not(self.ev_bool(node.operand, st))
         return truthy(self.ev(node, st))
+
+    def decided_false(self, g, st):
+        if z3.is_false(z3.simplify(g)):
+            return True
+        sol = z3.Solver()
+        sol.set("timeout", 150)
+        sol.add(*(st.pc[-16:] + st.guard))
+        sol.add(g)
+        return sol.check() == z3.unsat
 
     def spec_eval(self, src_or_node, st, extra=None):
         """Evaluate a contract expression (string) in state st; returns a Val. No safety obligations."""
